@@ -145,7 +145,7 @@ func Same(a, b Result, byValue bool) bool {
 type API struct {
 	Name       string
 	Decode     func([]byte) (any, error)
-	Apply      func(p any, c Call, doc []byte) ([]byte, error)
+	Apply      func(p any, c Call, doc []byte, oc *OptsCache) ([]byte, error)
 	Snapshot   func(p any) string // deep: keys, pointer identities, raw bytes
 	Accessors  func(p any) string
 	Merge      func(a, b []byte) ([]byte, error)
@@ -194,18 +194,56 @@ func fmtVal(v any, err error) string {
 
 type jsonRaw = ijson.RawMessage
 
-func optsOf(c Call) *jp.ApplyOptions {
+// OptsCache holds one *ApplyOptions value per option set, shared by every call
+// of a history or workload that names that set (callers keep one options value
+// around; the result must not depend on what it was used for before). A nil
+// cache means fresh options per call. Fill it with Prepare before concurrent use.
+type OptsCache struct {
+	m map[lib.Options]*jp.ApplyOptions
+}
+
+func NewOptsCache() *OptsCache { return &OptsCache{m: map[lib.Options]*jp.ApplyOptions{}} }
+
+// Prepare creates the shared value for c's option set.
+func (oc *OptsCache) Prepare(c Call) {
+	if oc == nil || c.Opts == nil {
+		return
+	}
+	if _, ok := oc.m[*c.Opts]; !ok {
+		oc.m[*c.Opts] = c.Opts.JP()
+	}
+}
+
+func (oc *OptsCache) get(c Call) *jp.ApplyOptions {
 	if c.Opts == nil {
 		return lib.Defaults().JP()
 	}
+	if oc != nil {
+		if o, ok := oc.m[*c.Opts]; ok {
+			return o
+		}
+	}
 	return c.Opts.JP()
+}
+
+// Intact reports whether every shared options value still holds what it was built with.
+func (oc *OptsCache) Intact() error {
+	if oc == nil {
+		return nil
+	}
+	for spec, o := range oc.m {
+		if want := spec.JP(); *o != *want {
+			return fmt.Errorf("an ApplyOptions value passed to Apply was modified: now %+v, was %+v", *o, *want)
+		}
+	}
+	return nil
 }
 
 // V5 is the v5 module.
 var V5 = API{
 	Name:   "v5",
 	Decode: func(b []byte) (any, error) { p, err := jp.DecodePatch(b); return p, err },
-	Apply: func(p any, c Call, doc []byte) ([]byte, error) {
+	Apply: func(p any, c Call, doc []byte, oc *OptsCache) ([]byte, error) {
 		pt := p.(jp.Patch)
 		switch c.Fn {
 		case FApply:
@@ -213,9 +251,9 @@ var V5 = API{
 		case FApplyIndent:
 			return pt.ApplyIndent(doc, c.Indent)
 		case FApplyOpts:
-			return pt.ApplyWithOptions(doc, optsOf(c))
+			return pt.ApplyWithOptions(doc, oc.get(c))
 		default:
-			return pt.ApplyIndentWithOptions(doc, c.Indent, optsOf(c))
+			return pt.ApplyIndentWithOptions(doc, c.Indent, oc.get(c))
 		}
 	},
 	Snapshot: func(p any) string {
@@ -245,7 +283,7 @@ var V5 = API{
 var Legacy = API{
 	Name:   "legacy",
 	Decode: func(b []byte) (any, error) { p, err := jl.DecodePatch(b); return p, err },
-	Apply: func(p any, c Call, doc []byte) ([]byte, error) {
+	Apply: func(p any, c Call, doc []byte, oc *OptsCache) ([]byte, error) {
 		pt := p.(jl.Patch)
 		switch c.Fn {
 		case FApply, FApplyOpts:
@@ -323,8 +361,8 @@ func (b *Buf) Intact() error {
 // Exec runs call c. patch is the decoded Patch to use for the Apply family and
 // Accessors (nil when the patch text did not decode: the result is then the
 // decode error). Runs under ev.Safe; a panic is part of the result.
-func Exec(api API, c Call, a, b []byte, patch any, patchErr error) (r Result) {
-	if p := ev.Safe(func() { r = exec(api, c, a, b, patch, patchErr) }); p != nil {
+func Exec(api API, c Call, a, b []byte, patch any, patchErr error, oc *OptsCache) (r Result) {
+	if p := ev.Safe(func() { r = exec(api, c, a, b, patch, patchErr, oc) }); p != nil {
 		return Result{Panic: p.Error()}
 	}
 	return r
@@ -338,7 +376,7 @@ func outRes(out []byte, err error) Result {
 	return r
 }
 
-func exec(api API, c Call, a, b []byte, patch any, patchErr error) Result {
+func exec(api API, c Call, a, b []byte, patch any, patchErr error, oc *OptsCache) Result {
 	switch c.Fn {
 	case FDecode:
 		p, err := api.Decode(b)
@@ -355,7 +393,7 @@ func exec(api API, c Call, a, b []byte, patch any, patchErr error) Result {
 		if patchErr != nil {
 			return Result{IsErr: true, Err: "decode: " + patchErr.Error()}
 		}
-		return outRes(api.Apply(patch, c, a))
+		return outRes(api.Apply(patch, c, a, oc))
 	case FMerge:
 		return outRes(api.Merge(a, b))
 	case FMergeMerge:
@@ -452,7 +490,8 @@ func DrawPool(t *rapid.T, legacy bool) Pool {
 			base = doc0
 		}
 		ops := g.Seq(t, base, ref.Opts{Neg: true}, 1, 6, 1)
-		add(&p.Patches, []byte(ref.OpsText(ops, gen.OneIn(t, 2, "pesc"))))
+		// patches too come in any spelling: whitespace and escapes inside values and pointers
+		add(&p.Patches, spell(ref.OpsTree(ops), fmt.Sprintf("p%d", i)))
 	}
 	nm := gen.Uniform(t, 1, 2, "nmerges")
 	for i := 0; i < nm; i++ {
